@@ -622,6 +622,12 @@ def seed_corpus(target, dest):
             n += 1
         open(os.path.join(dest, "seed-token"), "wb").write(bytes([3]) + open(os.path.join(fx, "token.object"), "rb").read())
         n += 1
+    elif target == "api":
+        import hashlib
+        # deterministic byte streams long enough to decode into 10-24 calls each (the decoder gives them meaning; they are not PRNG decisions of a property)
+        for i in range(24):
+            open(os.path.join(dest, "seed-api%02d" % i), "wb").write(b"".join(hashlib.sha256(b"c17-api-seed-%d-%d" % (i, j)).digest() for j in range(6 + i)))
+            n += 1
     else:
         for i, text in enumerate(["directories.tokendir = $T\nobjectstore.backend = file\nlog.level = ERROR\nslots.removable = false\nslots.mechanisms = ALL\n",
                                   "directories.tokendir = $T\nobjectstore.backend = db\nobjectstore.umask = 0077\nlog.level = DEBUG\nslots.removable = true\n"
@@ -678,7 +684,7 @@ class C17(Check):
                    "generation sizes that only cost time (RSA/DSA/DH parameter sizes between 1025 and 2^47 bits, buffers above 1 MiB) are not generated",
                    "a call that does not return within 120 s is counted as inconclusive, not as a violation"]
     essential_labels = {"api_cases": 300, "store_cases": 150, "conf_cases": 40, "api_calls_past_validation": 1500, "store_token_listed": 50,
-                        "fuzz_store_execs": 500, "fuzz_conf_execs": 500}
+                        "fuzz_store_execs": 500, "fuzz_conf_execs": 500, "fuzz_api_execs": 300}
 
     def setup(self, ctx):
         ctx.shared["tpl"] = Template(ctx.env, ntokens=2)
@@ -784,7 +790,7 @@ class C17(Check):
         ctx.steps += 1
         if p.returncode != 0:
             raise Violation("fuzz_%s: the process died on a %d-byte %s: %s" % (prog["target"], len(prog["input"]) // 2,
-                                                                                "token file" if prog["target"] == "store" else "configuration file", crash_summary(out)), prog)
+                                                                                {"store": "token file", "conf": "configuration file", "api": "call-sequence input"}[prog["target"]], crash_summary(out)), prog)
         ctx.case(prog, True, set())
 
     def extra(self, ctx, tier, shard, nshards):
@@ -880,11 +886,11 @@ class C17(Check):
             sb.remove()
 
     def fuzz_leg(self, ctx, tier, shard, nshards):
-        """one libFuzzer process per shard (store on two thirds of the shards, conf on the rest), fresh corpus, pinned -seed"""
+        """one libFuzzer process per shard (store on half of the shards, api and conf on a quarter each), fresh corpus, pinned -seed"""
         secs = int(os.environ.get("C17_FUZZ_SECONDS", FUZZ_SECONDS.get(tier, 40)))
         if secs <= 0:
             return None
-        target = "conf" if shard % 3 == 2 else "store"
+        target = ["store", "api", "conf", "store"][shard % 4]
         binary = os.path.join(BUILD, "ossl-asan", "fuzz_" + target)
         work = os.path.join(ctx.env.root, "fuzz")
         corpus, arts, stats = os.path.join(work, "corpus"), os.path.join(work, "art"), os.path.join(work, "stats")
@@ -892,7 +898,7 @@ class C17(Check):
             os.makedirs(d)
         nseeds = seed_corpus(target, corpus)
         cmd = [binary, "-max_total_time=%d" % secs, "-seed=%d" % (ctx.seed * 1000 + shard + 1), "-artifact_prefix=%s/" % arts, "-max_len=8192", "-timeout=120",
-               "-rss_limit_mb=4096", "-print_final_stats=1", "-entropic=0", corpus]
+               "-rss_limit_mb=4096", "-print_final_stats=1", "-entropic=0"] + (["-len_control=0", "-max_len=2048"] if target == "api" else []) + [corpus]
         p = subprocess.run(cmd, env=fuzz_env(stats), stdout=subprocess.PIPE, stderr=subprocess.STDOUT, timeout=secs + 900)
         out = p.stdout.decode("latin-1")
         m = re.search(r"stat::number_of_executed_units:\s*(\d+)", out)
